@@ -913,3 +913,75 @@ Theorem C01_any_size_ids_nonvacuous :
     (l, r) = true_pair HO data 5.
 Proof. exact any_size_ids_nonvacuous. Qed.
 Print Assumptions C01_any_size_ids_nonvacuous.
+
+(* ---- collision form (Proofs/Collision.v): the idealised hypothesis `cv_injective` is dropped.  Under the two
+   hypotheses that are true of BLAKE3 and of byte comparison (32-byte outputs, correct equality test), the e2e
+   conclusions hold on every stream OR the hash functions have a collision between two distinct valid inputs.
+   These four theorems (and the C16 ones of the same form) are the only ones that depend on an axiom:
+   Classical_Prop.classic (excluded middle, standard library). ---- *)
+From BaoV Require Import Proofs.Collision.
+Theorem C01_e2e_sync_or_collision : forall HO, cv_len32 HO -> beq_correct HO ->
+  (forall (data : bytes HO) (bs : N) (q : ranges),
+  (blen HO data <= 2 ^ 63)%N -> (bs <= 10)%N -> wf_ranges q = true -> q <> [] ->
+  forall (stream : bytes HO) ys o st,
+  dec_run HO (dec_new HO (root_hash HO data) (mkTree (blen HO data) bs) stream q) = (ys, o, st) ->
+  is_prefix ys (honest HO data bs q) /\
+  (o = Finished -> ys = honest HO data bs q /\ stream = flat HO (honest HO data bs q) ++ d_enc HO st) /\
+  (forall e, o = Failed e ->
+     ~ is_prefix (flat HO (firstn (length ys + 1) (honest HO data bs q))) stream) /\
+  o <> Panicked /\ o <> OutOfFuel) \/
+  collision HO.
+Proof. intros HO Hl Hb. apply (or_collision HO _ Hl Hb). exact (C01_e2e_sync HO). Qed.
+Print Assumptions C01_e2e_sync_or_collision.
+
+Theorem C01_e2e_fsm_or_collision : forall HO, cv_len32 HO -> beq_correct HO ->
+  (forall (data : bytes HO) (bs : N) (q : ranges),
+  (blen HO data <= 2 ^ 63)%N -> (bs <= 10)%N -> wf_ranges q = true -> q <> [] ->
+  forall (stream : bytes HO) ys o st,
+  rd_run HO (rd_new HO (root_hash HO data) q (mkTree (blen HO data) bs) stream) = (ys, o, st) ->
+  is_prefix ys (honest HO data bs q) /\
+  (o = Finished -> ys = honest HO data bs q /\ stream = flat HO (honest HO data bs q) ++ Fsm.r_enc HO st) /\
+  (forall e, o = Failed e ->
+     ~ is_prefix (flat HO (firstn (length ys + 1) (honest HO data bs q))) stream) /\
+  o <> Panicked /\ o <> OutOfFuel) \/
+  collision HO.
+Proof. intros HO Hl Hb. apply (or_collision HO _ Hl Hb). exact (C01_e2e_fsm HO). Qed.
+Print Assumptions C01_e2e_fsm_or_collision.
+
+Theorem C01_e2e_decode_ranges_or_collision : forall HO, cv_len32 HO -> beq_correct HO ->
+  (forall (data : bytes HO) (bs : N) (q : ranges),
+  (blen HO data <= 2 ^ 63)%N -> (bs <= 10)%N -> wf_ranges q = true -> q <> [] ->
+  forall (stream target : bytes HO) (ob : outboard HO),
+  ob_root ob = root_hash HO data -> ob_tree ob = mkTree (blen HO data) bs ->
+  exists ys o st',
+    let a := apply_items HO ys target ob in
+    decode_ranges HO stream q target ob = (ranges_result (a_res HO a) o, a_target HO a, a_ob HO a, st') /\
+    is_prefix ys (honest HO data bs q) /\
+    (o = Finished -> ys = honest HO data bs q /\ is_prefix (flat HO (honest HO data bs q)) stream) /\
+    (forall e, o = Failed e ->
+       ~ is_prefix (flat HO (firstn (length ys + 1) (honest HO data bs q))) stream) /\
+    o <> Panicked /\ o <> OutOfFuel) \/
+  collision HO.
+Proof. intros HO Hl Hb. apply (or_collision HO _ Hl Hb). exact (C01_e2e_decode_ranges HO). Qed.
+Print Assumptions C01_e2e_decode_ranges_or_collision.
+
+Theorem C01_e2e_decode_ranges_fsm_or_collision : forall HO, cv_len32 HO -> beq_correct HO ->
+  (forall (data : bytes HO) (bs : N) (q : ranges),
+  (blen HO data <= 2 ^ 63)%N -> (bs <= 10)%N -> wf_ranges q = true -> q <> [] ->
+  forall (stream target : bytes HO) (ob : outboard HO),
+  ob_root ob = root_hash HO data -> ob_tree ob = mkTree (blen HO data) bs ->
+  exists ys o st',
+    let a := apply_items HO ys target ob in
+    decode_ranges_fsm HO stream q target ob = (ranges_result (a_res HO a) o, a_target HO a, a_ob HO a, st') /\
+    is_prefix ys (honest HO data bs q) /\
+    (o = Finished -> ys = honest HO data bs q /\ is_prefix (flat HO (honest HO data bs q)) stream) /\
+    (forall e, o = Failed e ->
+       ~ is_prefix (flat HO (firstn (length ys + 1) (honest HO data bs q))) stream) /\
+    o <> Panicked /\ o <> OutOfFuel) \/
+  collision HO.
+Proof. intros HO Hl Hb. apply (or_collision HO _ Hl Hb). exact (C01_e2e_decode_ranges_fsm HO). Qed.
+Print Assumptions C01_e2e_decode_ranges_fsm_or_collision.
+
+Theorem C01_collision_excluded_by_hash_ok : forall HO, hash_ok HO -> ~ collision HO.
+Proof. intros HO H. apply injective_excludes_collision. exact (ho_inj HO H). Qed.
+Print Assumptions C01_collision_excluded_by_hash_ok.
